@@ -25,11 +25,12 @@ impl Bump {
 impl SortUnstableV for MutexGuard<'_, Vec<u64>> {
     open spec fn seq_v(&self) -> Seq<u64> { self@@ }
     #[verifier::external_body]
-    fn sort_unstable_v(&mut self) { unimplemented!() }
+    fn sort_unstable_v(&mut self)
+        ensures final(self).of() == old(self).of(),      // sorting the guarded list does not re-seat the guard
+    { unimplemented!() }
+    #[verifier::external_body]
+    fn binary_search_v(&self, x: &u64) -> (r: core::result::Result<usize, usize>) { unimplemented!() }
 }
-// std: slice::binary_search returns the position of an equal element when it answers Ok
-pub assume_specification<T: Ord> [<[T]>::binary_search] (s: &[T], x: &T) -> (r: core::result::Result<usize, usize>)
-    ensures r matches Ok(i) ==> i < s@.len() && s@[i as int] == *x;
 
 spec fn new_tx_meta(bytes: Seq<u8>, ps: int, writable: bool) -> Meta {
     let m0 = select_header(bytes, ps)->Some_0;
@@ -43,4 +44,18 @@ spec fn released_exactly(f0: Freelist, f: Freelist, bound: u64) -> bool {
     &&& forall|k: u64| f.pending_pages@.contains_key(k) <==> (f0.pending_pages@.contains_key(k) && k >= bound)
     &&& forall|k: u64| f.pending_pages@.contains_key(k) ==> f.pending_pages@[k] == f0.pending_pages@[k]
     &&& forall|x: u64| f.free_pages@.contains(x) <==> (f0.free_pages@.contains(x) || released(f0.pending_pages@, bound, x))
+}
+
+proof fn lemma_push_multiset(s: Seq<u64>, x: u64)
+    ensures s.push(x).to_multiset() == s.to_multiset().insert(x),
+{
+    broadcast use vstd::seq_lib::group_to_multiset_ensures;
+    assert(s.push(x).to_multiset() =~= s.to_multiset().insert(x));
+}
+proof fn lemma_remove_multiset(s: Seq<u64>, i: int)
+    requires 0 <= i < s.len(),
+    ensures s.remove(i).to_multiset() == s.to_multiset().remove(s[i]),
+{
+    broadcast use vstd::seq_lib::group_to_multiset_ensures;
+    assert(s.remove(i).to_multiset() =~= s.to_multiset().remove(s[i]));
 }
